@@ -23,6 +23,9 @@ def run(ctx: Ctx, chk) -> None:
 
     chk.run_rule(load_guard, ctx)
     chk.run_rule(enter_esc, ctx)
+    from .orderedio import executor_alive
+
+    chk.run_rule(executor_alive, ctx)
     from .mmtemplates import template1
 
     chk.run_rule(lambda c, k: template1(c, k, ["aiomysensors.model.node.NodeSchema", "aiomysensors.model.node.ChildSchema"]), ctx)
@@ -37,7 +40,9 @@ def enter_esc(ctx: Ctx, chk) -> None:
     f = ctx.func("aiomysensors.gateway.Gateway.__aenter__")
     esc = eea._apply_suppressions(eea.escapes_of(f, None))
     BASE = "aiomysensors.exceptions.AIOMySensorsError"
-    escape_rule(ctx, chk, rule, [("Gateway.__aenter__", esc)], lambda exc, site: eea.issub(exc, BASE), eea)
+    # what the transport's connect step lets out has nothing to do with the file: judged by C16 / C17 / C18
+    via_transport = {k for k, path in esc.items() if any(p_.startswith("aiomysensors.transport.") for p_ in path)}
+    escape_rule(ctx, chk, rule, [("Gateway.__aenter__", esc)], lambda exc, site: eea.issub(exc, BASE) or (exc, site) in via_transport, eea)
 
 
 def eea_pload(ctx: Ctx, chk) -> None:
